@@ -105,6 +105,45 @@ def one(ctx: Ctx, cs, pname=None, **over):
             ctx.mon('derived_documents')
             relations(ctx, t, doc, rows, kind_at, clef_ok, SELECTIONS[:2] + SELECTIONS[3:5],
                       {'case_seed': cs, 'profile': pname, 'over': over, 'text': x, 'derived': 'to_transposed'}, 'transposed')
+    # measure excerpts are exports too ("every option set"): header prefix and plain/extended relation on (a, b) ranges
+    M = len(d.measure_start_tree_stages)
+    if M >= 1:
+        import random
+        rng = random.Random(cs ^ 0x404)
+        for _ in range(2):
+            a = rng.randint(1, M)
+            b = rng.randint(a, M)
+            outs = {}
+            for name, enc in kpx.ENC_BY_NAME.items():
+                ctx.ev()
+                ctx.mon('excerpt_exports')
+                t_, err = kpx.dumps(d, from_measure=a, to_measure=b, encoding=enc)
+                outs[name] = t_ if err is None else None
+                if err is not None:
+                    ctx.mon(f'excerpt_export_raised:{type(err).__name__} (C07/C08/C10 decide)')
+            case = {'case_seed': cs, 'profile': pname, 'over': over, 'text': x, 'from_measure': a, 'to_measure': b}
+            if outs['kern'] is None:
+                continue
+            hk = kpx.grid(outs['kern'])[:1]
+            for name, t_ in outs.items():
+                if t_ is None or not hk:
+                    continue
+                g = kpx.grid(t_)
+                ctx.mon('excerpt_header_rows')
+                exp_h = ['**' + kpx.PREFIX[name] + h[2:] for h in hk[0]]
+                if not g or g[0] != exp_h:
+                    ctx.violation('header-prefix', f'excerpt {a}..{b} in {name}: header line {g[0] if g else None}, expected {exp_h} '
+                                  f'("**" + encoding prefix + original type)', case)
+            for ext, plain in kpx.PLAIN_OF.items():
+                if outs[ext] is None or outs[plain] is None:
+                    continue
+                ctx.mon('excerpt_plain_vs_extended_pairs')
+                ge_, gp_ = kpx.grid(outs[ext]), kpx.grid(outs[plain])
+                exp_rows = [[GM.strip_separators(c) for c in row] for row in ge_]
+                if ge_ and all(c.startswith('**') for c in ge_[0]):
+                    exp_rows[0] = ['**' + kpx.PREFIX[plain] + c[2 + len(kpx.PREFIX[ext]):] for c in ge_[0]]
+                if gp_ != exp_rows:
+                    ctx.violation('plain-vs-extended', f'excerpt {a}..{b}: {plain} != {ext} without separators', case)
     if nontriv:
         ctx.nontriv(x)
     if len(ctx.samples) < 2 and nontriv and len(x) < 600:
